@@ -82,7 +82,7 @@ def do_analysis_sweep(ex, idx, op):
     seen = set()
     n_done = 0
     saved_budget = w.budget
-    w.budget = min(w.budget, 1_500_000)   # one small text: a fraction of a whole scan's budget
+    w.budget = max(min(w.budget, 1_500_000), 8 * CONTENTS[cid].get("steps", 0))   # one text
     for a in args:
         if kind == "misc":
             k2, a2 = MISC[a]
@@ -94,6 +94,7 @@ def do_analysis_sweep(ex, idx, op):
             continue
         seen.add(h)
         text = c06.decode(nb)
+        w.text_budget = 250 * len(nb)
         box = {}
 
         def fn():
@@ -114,6 +115,7 @@ def do_analysis_sweep(ex, idx, op):
             if box["r"]:
                 ex.probe("c03_analyses_with_functions")
     w.budget = saved_budget
+    w.text_budget = 0
     ex.subcases += n_done
     return {"outcome": "ok", "result": "%d analyses" % n_done}
 
@@ -126,6 +128,11 @@ def sweep_plan(tier):
         lexer = LEXER_NAME[lang]
         n = len(CONTENTS[cid]["bytes"])
         if n == 0:
+            continue
+        if CONTENTS[cid].get("steps"):
+            # seconds per analysis: only a handful of faulted variants
+            cases.append({"content": cid, "lexer": lexer, "kind": "misc"})
+            cases.append({"content": cid, "lexer": lexer, "kind": "torn_prefix", "mode": "boundaries", "cap": 8 if tier == "quick" else 40})
             continue
         if tier == "quick":
             # token-boundary stratum, one case per content for both byte kinds
